@@ -108,6 +108,7 @@ type LoopSpec struct {
 	Inv      []*Clause
 	Dec      *Clause
 	Modifies []SExpr
+	Asserts  []*Clause // proved at the end of the loop body (before the invariant is re-established), then assumed: lemma instances
 }
 
 type FuncContract struct {
@@ -134,6 +135,8 @@ type FuncContract struct {
 	Ghost    map[string]string
 	Pure     bool // function has no side effects (modifies nothing)
 	Unroll   int
+	Asserts  []*Clause
+	After    map[string][]*Clause // "after <callee>: assert e": lemma instances proved (then assumed) right after each call of <callee>
 	Witness  []*WitnessVar // existential witnesses of the postconditions, given as expressions over locals at return
 }
 
@@ -802,7 +805,36 @@ func parseContractLines(pkg, file string, lines []rawLine) (*ContractFile, error
 				props = strings.Split(kind[i+1:len(kind)-1], ",")
 				kind = kind[:i]
 			}
+			if word == "after" {
+				// after <callee>: assert <expr>
+				j := strings.Index(rest, ":")
+				if j < 0 {
+					return nil, perr(l, fmt.Errorf("after <callee>: assert <expr>"))
+				}
+				callee := strings.TrimSpace(rest[:j])
+				body := strings.TrimSpace(rest[j+1:])
+				if !strings.HasPrefix(body, "assert ") {
+					return nil, perr(l, fmt.Errorf("after <callee>: only assert is supported"))
+				}
+				body = strings.TrimSpace(strings.TrimPrefix(body, "assert "))
+				e, err := parseSpecExpr(body)
+				if err != nil {
+					return nil, perr(l, err)
+				}
+				if cur.After == nil {
+					cur.After = map[string][]*Clause{}
+				}
+				cur.After[callee] = append(cur.After[callee], &Clause{Kind: "assert", Expr: e, Text: body, Line: l.line})
+				continue
+			}
 			switch kind {
+			case "assert":
+				// function-level assert: proved at every return before the postconditions, then assumed
+				e, err := parseSpecExpr(rest)
+				if err != nil {
+					return nil, perr(l, err)
+				}
+				cur.Asserts = append(cur.Asserts, &Clause{Kind: "assert", Props: props, Expr: e, Text: rest, Line: l.line})
 			case "requires", "ensures", "panics_if":
 				name := ""
 				e, err := parseSpecExpr(rest)
@@ -866,15 +898,18 @@ func parseContractLines(pkg, file string, lines []rawLine) (*ContractFile, error
 					sub = sub[:i]
 				}
 				switch sub {
-				case "invariant", "decreases":
+				case "invariant", "decreases", "assert":
 					e, err := parseSpecExpr(body)
 					if err != nil {
 						return nil, perr(l, err)
 					}
 					c := &Clause{Kind: sub, Expr: e, Text: body, Line: l.line, Props: lprops}
-					if sub == "invariant" {
+					switch sub {
+					case "invariant":
 						ls.Inv = append(ls.Inv, c)
-					} else {
+					case "assert":
+						ls.Asserts = append(ls.Asserts, c)
+					default:
 						ls.Dec = c
 					}
 				case "modifies":
